@@ -31,8 +31,7 @@ func mainProbe(args []string) int {
 			fmt.Println(err)
 			return 2
 		}
-		hold := make(chan struct{})
-		e.hosts.hold = hold
+		held := e.hosts.arm(1)
 		r := newRunner(e, 900000, 3*time.Second, time.Second)
 		out := map[string]interface{}{}
 		step := func(s Step) bool {
@@ -42,14 +41,12 @@ func mainProbe(args []string) int {
 			}
 			return ok
 		}
-		if step(Step{"LeaseWon", 1}) && step(Step{"FetchOk", 1}) {
+		if step(Step{Name: "LeaseWon", Arg: 1}) && step(Step{Name: "FetchOk", Arg: 1}) {
 			// Submit: the manager blocks in the hostname check
 			r.nsub++
 			r.sub[1] = 1
 			e.submit(1, 1)
-			for e.hosts.waiting() == 0 {
-				time.Sleep(time.Millisecond)
-			}
+			<-held
 			if mode == "shutdown" {
 				e.cancel()
 			} else {
@@ -61,8 +58,7 @@ func mainProbe(args []string) int {
 			case <-time.After(3 * time.Second):
 				out["reply to the submission in the hostname check"] = "none within 3s"
 			}
-			close(hold)
-			e.hosts.hold = nil
+			e.hosts.disarm()
 			if mode == "shutdown" {
 				select {
 				case <-e.svc.Done():
@@ -85,6 +81,7 @@ func mainProbe(args []string) int {
 			}
 		}
 		res[mode+" during hostname check"] = out
+		e.zombie = true
 		e.close(time.Second)
 	}
 	b, _ := json.MarshalIndent(res, "", " ")
